@@ -283,7 +283,11 @@ package db
 //@   free-requires cb != nil && t != nil && t.db != nil && !searching && !ixmode
 
 // Rowid lookup. The consumer closure counts the delivery itself (it is the end of the chain).
+// rowid_hit: whether the last Table.Rowid call handed out a record.
+//@ ghost rowid_hit bool
 //@ func (*db.Table).Rowid
+//@   ghost-exit rowid_hit = (reg(r0) != 0)
+//@   ensures [hit] rowid_hit <==> reg(r0) != 0
 //@   ghost-entry rb = 31
 //@   ghost-exit rb = old(rb)
 //@   props C04 C12
